@@ -300,4 +300,42 @@ example :
 example : Go.setFields (Go.unmarshalFuel 3) ([("type", .num 1)] ++ [("x-vendor", .null)]) Go.emptyNode #[] = .err := by
   rfl
 
+/-! ### The per-node checks of Resolve (`checkLocal`, `basicChecks`) under a decoration
+
+`Resolve` refuses a schema object that sets both `$defs` and `definitions` ("both Defs and Definitions are set; at most one
+should be" — pinned by resolve_test.go).  So a decoration is invisible to `checkLocal` only under the hypothesis **H_D22**: it
+does not change whether the object holds both spellings.  Known finding D22; the full statement (without `hD22`) is false,
+see the witness below. -/
+
+/-- **partial** (missing: decorations that add `definitions` next to `$defs` or vice versa).  A decorated node `n'` that agrees
+    with `n` on every field `checkLocal` reads other than `$defs` / `definitions` passes `checkLocal` iff `n` does. -/
+theorem checkLocal_decoration_partial (env : Go.Env) (n n' : Node)
+    (h1 : n'.type = n.type) (h2 : n'.types = n.types) (h3 : n'.items = n.items) (h4 : n'.itemsArray = n.itemsArray)
+    (h5 : n'.propertyOrder = n.propertyOrder) (h6 : n'.dependencySchemas = n.dependencySchemas)
+    (h7 : n'.dependencyStrings = n.dependencyStrings) (h8 : n'.vocabulary = n.vocabulary) (h9 : n'.schema = n.schema)
+    (h10 : n'.pattern = n.pattern) (h11 : n'.patternProperties = n.patternProperties)
+    (hD22 : (n'.defs.isSome && n'.definitions.isSome) = (n.defs.isSome && n.definitions.isSome)) :
+    Go.checkLocalOk env n' = Go.checkLocalOk env n := by
+  simp only [Go.checkLocalOk, Go.basicChecksOk, h1, h2, h3, h4, h5, h6, h7, h8, h9, h10, h11, hD22]
+
+/-- in particular: adding or removing an (unreferenced) `$defs` map on an object without `definitions`, and the other way round -/
+theorem checkLocal_defs_only (env : Go.Env) (n : Node) (d : Option (List (String × NodeId))) (h : n.definitions = none) :
+    Go.checkLocalOk env { n with defs := d } = Go.checkLocalOk env n := by
+  apply checkLocal_decoration_partial <;> simp [h]
+
+theorem checkLocal_definitions_only (env : Go.Env) (n : Node) (d : Option (List (String × NodeId))) (h : n.defs = none) :
+    Go.checkLocalOk env { n with definitions := d } = Go.checkLocalOk env n := by
+  apply checkLocal_decoration_partial <;> simp [h]
+
+/-- the hypothesis is met by a concrete non-trivial pair -/
+example : (({ type := "string", defs := some [("a", 1)], title := "t" } : Node).defs.isSome &&
+           ({ type := "string", defs := some [("a", 1)], title := "t" } : Node).definitions.isSome)
+        = (({ type := "string" } : Node).defs.isSome && ({ type := "string" } : Node).definitions.isSome) := by decide
+
+/-- **witness of D22** (the statement without `hD22` is false): `{"$defs":{"a":…}}` passes the checks, the same object with an
+    unreferenced `"definitions":{"unused":…}` added does not — every verdict becomes a Resolve error. -/
+example : Go.checkLocalOk { st := #[], reOk := fun _ => true, loader := none } { defs := some [("a", 1)] } = true ∧
+          Go.checkLocalOk { st := #[], reOk := fun _ => true, loader := none }
+            { defs := some [("a", 1)], definitions := some [("unused", 2)] } = false := by decide
+
 end JSV.C18
